@@ -127,7 +127,7 @@ def vclass(v):
 
 
 def minimise(world, prop, trace, target_class, budget=1500, time_budget=90.0,
-             clock=None):
+             clock=None, accept=None):
     """Greedy delta debugging driven by the world's shrink() candidates.
 
     A candidate is kept only while a violation of the *same class*
@@ -142,7 +142,7 @@ def minimise(world, prop, trace, target_class, budget=1500, time_budget=90.0,
         except Exception:
             return None   # a candidate that breaks the harness is not a witness
         for v in out.violations:
-            if vclass(v) == target_class:
+            if vclass(v) == target_class and (accept is None or accept(tr, v)):
                 return v
         return None
 
